@@ -179,6 +179,8 @@ func checkC06(c *Ctx) {
 	checkNOL(c, f)
 	// (i)
 	checkContinuationColumns(c, f)
+	r.Rule("C06.j", "after `=`, `with` and the `->` of a lambda or match rule the parser skips line ends before parsing what follows (what follows may start on the next line); the arrow of a type is the one exception", 10)
+	checkSkipAfterContinuationTokens(c, f, "C06.j")
 	checkRelevantReviewedForms(c, f, "C06.z", "a layout primitive (line-end skipping, columns, offside stack, adjacency)",
 		primSet("psSkipEOL", "psNextNOL", "psCurCol", "psCurOffside", "insideOffside", "isEndOfBlock", "psPushOffside", "psPopOffside", "psNextNonEOLIsBinOp", "psIsNeighborLT", "tkzIsNeighborLT", "tkzNextNOL", "tkzNext"), 30)
 }
